@@ -9,7 +9,7 @@ def run(ctx):
     distinct = len({(c["dataset"], str(c["after"]["active"])) for c in cases} | {(c["dataset"], str(c["before"]["active"])) for c in cases})
     ctx.coverage.update({
         "evaluations": 2 * len(cases), "distinct_nontrivial": distinct,
-        "rule": "states before and after (start set, action, decision) transactions on the two shipped data sets; implementation-side "
+        "rule": "states before and after (start set, action, decision) transactions on the two shipped data sets and a row-permuted variant of ValidModel (Subcatchments rows reversed, Actions rows rotated); implementation-side "
                 "oracle at every state: grid total == sum of grid per-unit values for all six variables, TN == PN + DN per unit and in "
                 "total, and the same for the figures SolutionBuilder copies into solution files / the engine serves; model vs "
                 "implementation on all of these values. distinct_nontrivial = distinct (data set, active set) states checked",
